@@ -26,7 +26,7 @@
 From Coq Require Import Floats Permutation.
 From JM Require Import Model.Base Model.Num Model.Value Model.JsonText Model.Lexer Model.Parser Model.Interp Model.Api
      Spec.Grammar Spec.Semantics Proofs.ValueFacts Proofs.InterpRefine Proofs.CompileTotal Proofs.ParserShape
-     Proofs.SearchTotal Proofs.ApiFacts Proofs.ParserTotal Proofs.ParserComplete Proofs.LexText Proofs.ParserSound Proofs.LitText Inst.FloatNum Run.Checker.
+     Proofs.SearchTotal Proofs.ApiFacts Proofs.ParserTotal Proofs.ParserComplete Proofs.LexText Proofs.LexAdj Proofs.ParserSound Proofs.LexExact Proofs.LitText Inst.FloatNum Run.Checker.
 
 Section C04.
 Context {NumO : NumOps}.
@@ -93,6 +93,18 @@ Theorem C04_compile_exactly :
                  Spell ts 0 (render lit_text x ++ [tk tEOF []]).
 Proof. exact (compile_exact lit_text lit_ok). Qed.
 
+(* from bytes, against the lexical grammar instead of the lexer: Compile accepts a
+   byte string exactly when it reads (Lex: whitespace, and token texts each followed
+   by something that cannot extend it — Proofs/LexExact.v) as a list of tokens that
+   is, token by token, the spelling of a well-precedenced tree; the AST is that
+   tree's.  reads_as: same token types, values equal as the parser reads them
+   (numbers by their integer, literals by their JSON value, names byte for byte). *)
+Theorem C04_compile_accepts_exactly_the_sentences :
+  forall (s : bytes) n,
+    Api.compile s = Ok n <->
+    exists l x, Lex s l /\ reads_as l (render lit_text x) /\ n = compile x /\ wp x = true /\ npos x = true.
+Proof. exact (compile_bytes_exact lit_text lit_ok). Qed.
+
 (* ... and from bytes: the spaced text of every such tree is accepted by Compile *)
 Theorem C04_grammatical_text_is_accepted :
   forall x : expr, wp x = true -> npos x = true -> texty lit_text x = true ->
@@ -113,6 +125,7 @@ Print Assumptions C04_grammatical_is_accepted.
 Print Assumptions C04_accepted_is_a_sentence.
 Print Assumptions C04_exactly_the_sentences.
 Print Assumptions C04_compile_exactly.
+Print Assumptions C04_compile_accepts_exactly_the_sentences.
 Print Assumptions C04_grammatical_text_is_accepted.
 Print Assumptions C04_accepted_is_a_tree.
 Print Assumptions C04_accepted_evaluates_as_its_tree.
